@@ -154,13 +154,25 @@ class Taint:
             ch = True
         return ch
 
-    def _taint_ref_target(self, bi, l, why):
+    def _taint_ref_target(self, bi, l, why, _depth=0):
         b = self.bodies[bi]
         ch = False
         for (_, _, kind, payload) in b.defs().get(l, []):
-            if kind == "assign" and payload["rv"]["k"] in ("ref", "rawptr"):
-                src = payload["rv"]["place"]
+            if kind != "assign":
+                continue
+            rv = payload["rv"]
+            if rv["k"] in ("ref", "rawptr"):
+                src = rv["place"]
+                if src["p"] == ["*"] and _depth < 4:
+                    # reborrow `&mut *r`: go to what r points at
+                    ch = self._taint_ref_target(bi, src["l"], why, _depth + 1) or ch
                 ch = self._write(bi, src, why) or ch
+            elif rv["k"] in ("use", "cast") and _depth < 4:
+                # moves and unsizing coercions of the reference
+                src = op_place(rv["a"][0])
+                if src is not None and not src["p"]:
+                    ch = self._taint_local(bi, src["l"], why) or ch
+                    ch = self._taint_ref_target(bi, src["l"], why, _depth + 1) or ch
         return ch
 
     def _run(self):
@@ -341,6 +353,35 @@ class Taint:
 # ----------------------------------------------------------------------------------------------
 
 
+def field_hi(prog, adt, field):
+    """Upper bound of a workspace struct field: max over every struct literal that sets it,
+    provided the field is never written or mutably borrowed anywhere else."""
+    if not hasattr(prog, "_field_hi"):
+        prog._field_hi = {}
+    key = (adt, field)
+    if key in prog._field_hi:
+        return prog._field_hi[key]
+    prog._field_hi[key] = INF  # recursion guard
+    hi = 0
+    found = False
+    for b in prog.bodies:
+        if not b.crate.startswith("ethercrab"):
+            continue
+        for (bi, si, kind, pl) in q.field_accesses(b, adt, field):
+            if kind in ("write", "addr_mut"):
+                prog._field_hi[key] = INF
+                return INF
+        for bi, si, st in q.aggregates(b, adt):
+            a = q.agg_field(st, field)
+            if a is None:
+                continue
+            found = True
+            hi = max(hi, Bounds(b).of_operand(a))
+    r = hi if found else INF
+    prog._field_hi[key] = r
+    return r
+
+
 class Bounds:
     def __init__(self, body, field_hi=None):
         self.b = body
@@ -367,6 +408,8 @@ class Bounds:
         # (tuple of WithOverflow).0
         if isinstance(last, dict) and last.get("k") == "tuple" and last["f"] == 0 and len(pl["p"]) == 1:
             return self._ovf_tuple(pl["l"])
+        if isinstance(last, dict) and "n" in last and "adt" in last:
+            return min(ty_max(last["ty"]), field_hi(b.prog, last_seg(norm(last["adt"])), last["n"]))
         if isinstance(last, dict) and "ty" in last:
             return ty_max(last["ty"])
         if last == "*":
@@ -715,7 +758,25 @@ def _same_value(body, a, b):
                 return canon(src, depth + 1)
         return ("place", pl["l"], ())
 
-    return canon(pa) == canon(pb)
+    if canon(pa) == canon(pb):
+        return True
+    # two loads of the same never-written struct field
+    ra, rb = Prov(body).of_operand(a), Prov(body).of_operand(b)
+    if ra == rb and ra and all(x[0] in ("arg", "upvar", "field") for x in ra):
+        flds = [x for x in ra if x[0] == "field"]
+        if flds and all(field_hi(body.prog, x[1], x[2]) != INF or _never_written(body.prog, x[1], x[2]) for x in flds):
+            return True
+    return False
+
+
+def _never_written(prog, adt, field):
+    for b in prog.bodies:
+        if not b.crate.startswith("ethercrab"):
+            continue
+        for (bi, si, kind, pl) in q.field_accesses(b, adt, field):
+            if kind in ("write", "addr_mut"):
+                return False
+    return True
 
 
 def _len_receiver_roots(body, op):
@@ -805,9 +866,28 @@ def discharge_by_guard(s):
                         return "guard: subtrahend is min(_, minuend)"
         # a - (x % a)
         if pr is not None and not pr["p"]:
-            for (_, _, kind, payload) in b.defs().get(pr["l"], []):
+            lr = pr["l"]
+            for _ in range(4):
+                ds = b.defs().get(lr, [])
+                if len(ds) == 1 and ds[0][2] == "assign" and ds[0][3]["rv"]["k"] == "use":
+                    nxt = op_place(ds[0][3]["rv"]["a"][0])
+                    if nxt is not None and not nxt["p"]:
+                        lr = nxt["l"]
+                        continue
+                break
+            for (_, _, kind, payload) in b.defs().get(lr, []):
                 if kind == "assign" and payload["rv"]["k"] == "bin" and payload["rv"]["op"] == "Rem" and _same_value(b, payload["rv"]["a"][1], l):
                     return "guard: subtrahend is _ % minuend"
+    if s.kind == "assert" and s.what.startswith("Overflow:Mul"):
+        # (x / p) * p <= x
+        l, r = s.ops
+        for a, o in ((l, r), (r, l)):
+            pa = op_place(a)
+            if pa is None or pa["p"]:
+                continue
+            for (_, _, kind, payload) in b.defs().get(pa["l"], []):
+                if kind == "assign" and payload["rv"]["k"] == "bin" and payload["rv"]["op"] == "Div" and _same_value(b, payload["rv"]["a"][1], o):
+                    return "guard: (x / p) * p cannot exceed x"
     if s.kind == "assert" and s.what in ("DivisionByZero", "RemainderByZero"):
         d = s.ops[0]
         k = q.const_int(d)
